@@ -77,9 +77,11 @@ def replay_scores(data):
         im = core.impl()
         sp = core.run_driver(["S\tscore\t%s\t%s" % (ver, enc(s))])[0]
         first = core.impl_construct(ver, "s", s)
+        VV = VOCAB[ver]
+        scored = [(m, vals) for m, vals in VV["vocab"] if not (ver == "4" and m in ("S", "AU", "R", "V", "RE", "U"))]
         for _ in range(int(r["volume"]) + 10):
             try:
-                im.cls[ver](core.rand_vector(ver, rr, p_absent=0.35)).scores()
+                im.cls[ver](core.PREFIX[ver][-1] + "/".join("%s:%s" % (m, rr.choice(vals)) for m, vals in scored)).scores()
             except Exception:  # noqa
                 pass
         again = core.impl_construct(ver, "s", s)
@@ -158,12 +160,16 @@ def extra_probes(ctx, ver, strings, label):
     early = sample[:: max(1, len(sample) // 300)][:300]
     e_ref = [core.impl_construct(ver, "s", s) for s in early]
     V = VOCAB[ver]
-    n_vol = ctx.n(70000, 1150000) if ctx.scale == 1 else 70000
+    n_vol = ctx.n(70000, 1300000) if ctx.scale == 1 else 70000
     cls = im.cls[ver]
     seen_n = 0
+    # every scored metric spelled out with a uniformly drawn value: (almost) every construction has a NEW effective assignment
+    # (measured: 98% distinct among 300 k; the thorough volume exceeds 2^20 distinct effective v4 assignments)
+    scored = [(m, vals) for m, vals in V["vocab"] if not (ver == "4" and m in ("S", "AU", "R", "V", "RE", "U"))]
+    pfx = core.PREFIX[ver][-1]
     for i in range(n_vol):
         try:
-            cls(core.rand_vector(ver, rng, p_absent=0.35)).scores()
+            cls(pfx + "/".join("%s:%s" % (m, rng.choice(vals)) for m, vals in scored)).scores()
             seen_n += 1
         except Exception:  # noqa
             pass
